@@ -271,6 +271,15 @@ func (st *e1State) invariant(hist *[]string) *Violation {
 	if err := st.m.Step(&it, &res); err != nil {
 		return e1Violation(st.f.prop, st.c, "sequential", "seq:Items-invariant", fmt.Sprintf("read-back after step %d: Items(): %v", len(st.c.Ops)-1, err), *hist)
 	}
+	// every bulk key through the point-lookup path as well (Range and Load walk the chains differently)
+	bg := model.Op{K: model.HBulkGet, Key: e1BulkBase, N: e1BulkMax}
+	bres, bf := e1Exec(st.api, &bg)
+	if bf != nil {
+		return e1Violation(st.f.prop, st.c, "scheduler:"+bf.Kind, bf.Kind+":Get", bf.Detail, *hist)
+	}
+	if err := st.m.Step(&bg, &bres); err != nil {
+		return e1Violation(st.f.prop, st.c, "sequential", "seq:Get-invariant", fmt.Sprintf("read-back after step %d: %v", len(st.c.Ops)-1, err), *hist)
+	}
 	cn := model.Op{K: model.CCount}
 	cres, _ := e1Exec(st.api, &cn)
 	if err := st.m.Step(&cn, &cres); err != nil {
